@@ -15,13 +15,17 @@ open Model Model.Pedal C14P
 
 /-! ### `PerformedNote(d)` -/
 
+/-- the default velocity (regenerated from the source) is itself a valid velocity -/
+theorem velDefault_ok : 0 ≤ Gen.C14.velDefault ∧ Gen.C14.velDefault ≤ 127 := by decide
+
 /-- what the constructor fills in: `pitch` from `pitch`, else from `midi_pitch`; `midi_pitch` from `midi_pitch`, else
     from `pitch` (fixes/C14-4); `note_on` / `note_off` must be given; `sound_off` defaults to `note_off`,
     `velocity` to 60, `track` to 0, `channel` to 1; ticks stay as given -/
 theorem init_defaults (r : RawNote) (n : PNote) (h : initNote r = some n) :
     n.id = r.id ∧ r.pitch.or r.midiPitch = some n.pitch ∧ n.midiPitch = r.midiPitch.getD n.pitch
     ∧ r.on = some n.on ∧ r.off = some n.off ∧ n.soundOff = r.soundOff.getD n.off
-    ∧ n.vel = r.vel.getD 60 ∧ n.track = r.track.getD 0 ∧ n.chan = r.chan.getD 1
+    ∧ n.vel = r.vel.getD Gen.C14.velDefault ∧ n.track = r.track.getD Gen.C14.trackDefault
+    ∧ n.chan = r.chan.getD Gen.C14.chanDefault
     ∧ n.onTick = r.onTick ∧ n.offTick = r.offTick ∧ validInit n = true := by
   unfold initNote at h
   split at h
@@ -35,14 +39,14 @@ theorem init_defaults (r : RawNote) (n : PNote) (h : initNote r = some n) :
       simp only [defaulted] at hon hoff
       have hron : ∃ x, r.on = some x := by
         cases hr : r.on with
-        | none => rw [hr] at hon; simp only [Option.getD_none] at hon; norm_num at hon
+        | none => rw [hr] at hon; simp only [Option.getD_none, Gen.C14.missingOn] at hon; norm_num at hon
         | some x => exact ⟨x, rfl⟩
       obtain ⟨x, hx⟩ := hron
       have hroff : ∃ y, r.off = some y := by
         cases hr : r.off with
         | none =>
           rw [hr] at hoff
-          simp only [Option.getD_none] at hoff
+          simp only [Option.getD_none, Gen.C14.missingOff] at hoff
           rcases hoff with h1 | ⟨h2, _⟩
           · exact absurd hon (not_le.mpr h1)
           · norm_num at h2
@@ -106,7 +110,7 @@ theorem init_accepts_iff (r : RawNote) :
       simp only [defaulted, hon, hoff, Option.getD_some]
       refine ⟨⟨hp1, hp2⟩, h0on, Or.inr ⟨h0off, honoff⟩, ?_, ?_, hot, ?_⟩
       · cases hr : r.vel with
-        | none => simp
+        | none => simpa using velDefault_ok
         | some v => simpa using hvel v hr
       · cases hr : r.soundOff with
         | none => exact Or.inr ⟨h0off, le_refl _⟩
@@ -125,7 +129,7 @@ theorem init_accepts_iff (r : RawNote) :
 
 -- the documented form (key `pitch`, no velocity / track / channel) and the loaders' form; rejections
 example : initNote ⟨none, some 60, none, some 10, some 20, none, none, none, none, none, none⟩
-    = some ⟨none, 60, 60, 10, 20, 20, 60, 0, 1, none, none⟩ := by decide +kernel
+    = some ⟨none, 60, 60, 10, 20, 20, Gen.C14.velDefault, Gen.C14.trackDefault, Gen.C14.chanDefault, none, none⟩ := by decide +kernel
 example : initNote ⟨some "n0", none, some 60, some 0, some 1, some 3, some 64, some 2, some 9, some 5, none⟩
     = some ⟨some "n0", 60, 60, 0, 1, 3, 64, 2, 9, some 5, none⟩ := by decide +kernel
 example : initNote ⟨none, none, none, some 0, some 1, none, none, none, none, none, none⟩ = none := by decide +kernel
@@ -166,7 +170,7 @@ theorem init_valid (r : RawNote) (n : PNote) (h : initNote r = some n)
   simp only [PNote.toNote, hm]
   refine ⟨hp1, hp2, h0on, honoff, ?_⟩
   cases hr : r.vel with
-  | none => rw [hvel, hr]; simp
+  | none => rw [hvel, hr]; simpa using velDefault_ok
   | some v =>
     rw [hvel, hr]
     exact hv v hr
@@ -237,7 +241,8 @@ theorem raw_build_refines (rs : List RawNote) (cs : List Control) (thr : Int) (p
 example : buildRaw [⟨some "a", some 60, none, some 0, some 2, some 9, none, none, none, none, none⟩,
                     ⟨some "b", none, some 60, some 3, some 4, none, some 64, none, some 2, none, none⟩]
     [⟨64, 1/2, 100, none⟩, ⟨64, 5, 0, none⟩] 64
-    = some ⟨[⟨some "a", 60, 60, 0, 2, 3, 60, 0, 1, none, none⟩, ⟨some "b", 60, 60, 3, 4, 5, 64, 0, 2, none, none⟩],
+    = some ⟨[⟨some "a", 60, 60, 0, 2, 3, Gen.C14.velDefault, Gen.C14.trackDefault, Gen.C14.chanDefault, none, none⟩,
+             ⟨some "b", 60, 60, 3, 4, 5, 64, Gen.C14.trackDefault, 2, none, none⟩],
             [⟨64, 1/2, 100, none⟩, ⟨64, 5, 0, none⟩], 64⟩ := by decide +kernel
 
 /-! ### `note[key] = value` -/
@@ -478,10 +483,10 @@ theorem init_inv (r : RawNote) (n : PNote) (h : initNote r = some n) : NoteInv n
   have h0off : 0 ≤ n.off := le_trans h0on honoff
   refine ⟨hp1, hp2, ?_, ?_, h0on, h0off, ?_⟩
   · cases hr : r.vel with
-    | none => rw [hvel, hr]; simp
+    | none => rw [hvel, hr]; simpa using velDefault_ok.1
     | some v => rw [hvel, hr]; exact (hv v hr).1
   · cases hr : r.vel with
-    | none => rw [hvel, hr]; simp
+    | none => rw [hvel, hr]; simpa using velDefault_ok.2
     | some v => rw [hvel, hr]; exact (hv v hr).2
   · cases hr : r.soundOff with
     | none => rw [hso, hr]; exact h0off
